@@ -354,8 +354,19 @@ fn definition_candidate(r: &mut Rng, t: &TaskCtx) -> (String, Option<&'static st
         let vs: Vec<String> = (0..*a).map(|i| format!("X{i}")).collect();
         return (format!("definition[d]: forall {} ({}_p({}) <-> {} = 1).", vs.join(" "), q, vs.join(", "), vs[0]), Some("predicate-taken-by-renamed-private"));
     }
-    let defect = r.below(14);
+    let defect = r.below(15);
     match defect {
+        14 => {
+            // a predicate the preamble of every problem defines: not fresh
+            let (p, a) = [("p__less_equal__", 2), ("p__less__", 2), ("p__is_integer__", 1), ("p__is_symbolic__", 1), ("p__greater__", 2)][r.upto(5)];
+            let vs: Vec<String> = (0..a).map(|i| format!("X{i}")).collect();
+            (format!("definition[d]: forall {} ({p}({}) <-> {}).", vs.join(" "), vs.join(", "), ["#false", "#true", "X0 = 1"][r.upto(3)]), Some("predicate-taken-by-preamble"))
+        }
+        2 if r.chance(1, 2) => {
+            // the body leaves quantified variables unused and mentions a free one instead
+            let atom = if !unary.is_empty() { format!("{}(W)", unary[r.upto(unary.len())].0) } else { "W = 1".to_string() };
+            (format!("definition[d]: forall X Y (fresh(X, Y) <-> {atom})."), Some("free-variable-in-body"))
+        }
         0 => (format!("definition[d]: forall {quant} (fresh({head_args}) <-> {good_body})."), None),
         1 => (format!("definition(forward)[d]: forall {quant} (fresh({head_args}) <-> {good_body} and exists Z (Z = {})).", vars[0]), None),
         2 => (format!("definition[d]: forall {quant} (fresh({head_args}) <-> {good_body} and W = W)."), Some("free-variable-in-body")),
@@ -486,8 +497,27 @@ fn case(cfg: &Config, idx: u64, r: &mut Rng, st: &mut Stats) {
     let _ = BTreeMap::<u8, u8>::new();
 }
 
+/// known-finding witness: an external task whose outline holds a definition that must be refused
+fn replay_known(k: &crate::run::KnownFinding) -> bool {
+    let w = &k.witness;
+    let texts = ExtTexts {
+        left: either::Either::Left(w.str("left").unwrap_or("").to_string()),
+        right: w.str("right").unwrap_or("").to_string(),
+        ug: w.str("user_guide").unwrap_or("").to_string(),
+        po: w.str("proof_outline").unwrap_or("").to_string(),
+    };
+    let Ok(t) = make_ctx(texts) else { return false };
+    let flags = Flags { sequential: true, direction: Dir::Universal, simplify: true, break_equivalences: true };
+    matches!(build_external(&t.parsed, true, flags), Built::Ok { .. })
+}
+
 pub fn run(cfg: &Config) -> i32 {
     let started = Instant::now();
+    let mut known_replayed = Vec::new();
+    for k in crate::run::load_known(cfg).into_iter().filter(|k| k.property == "C13" && k.status == "open") {
+        let still = replay_known(&k);
+        known_replayed.push((k, still));
+    }
     let budget = Duration::from_secs_f64(cfg.pick(45.0, 420.0) * cfg.scale);
     let stats = parallel(cfg, "main", cfg.scaled(cfg.pick(40_000, 2_000_000)), budget, |idx, r, st| case(cfg, idx, r, st));
     finish(
@@ -496,11 +526,11 @@ pub fn run(cfg: &Config) -> i32 {
         Outcome {
             stats,
             level: "exploration",
-            rule: "generated external tasks with proof outlines (1-4 entries: definitions, lemmas with free variables, inductive lemmas with negative n / N rebound inside F / extra free variables; every direction annotation) under random flags; (1) history check over the emitted problem list: every axiom must be a premise of the direction (axioms of the same task built with an empty outline), an accepted definition, a lemma whose obligation problems were all emitted earlier, or an earlier conclusion; (2) induction: on interpretations where the emitted base and step evaluate to true, F[N:=k] must not be false for k in n..n+12; (3) outlines with a definition violating one acceptance condition must be refused; a case is one checked problem / induction instance / refused definition".into(),
+            rule: "generated external tasks with proof outlines (1-4 entries: definitions, lemmas with free variables, inductive lemmas with negative n / N rebound inside F / extra free variables; every direction annotation) under random flags; (1) history check over the emitted problem list: every axiom must be a premise of the direction (axioms of the same task built with an empty outline), an accepted definition, a lemma whose obligation problems were all emitted earlier, or an earlier conclusion; (2) induction: on interpretations where the emitted base and step evaluate to true, F[N:=k] must not be false for k in n..n+12; (3) outlines with a definition violating one acceptance condition (15 classes, among them a predicate of the preamble) must be refused; a case is one checked problem / induction instance / refused definition".into(),
             assumptions: vec!["formula identity is by syntax tree; universal closure of lemma formulas uses anthem's own closure function for matching only".into()],
             floor: cfg.pick(100_000, 500_000),
             floor_counter: "axiom_justification_checks".into(),
-            known_replayed: vec![],
+            known_replayed,
             extra: J::obj(),
         },
     )
